@@ -64,6 +64,9 @@ def run_shard(desc, R, tier):
                             for meth in ('music', 'ev'):
                                 eval_point({'kind': 'cx', 'NFFT': nf, 'bins': list(sub), 'amps': np.array(amps, dtype=complex), 'phases': list(ph),
                                             'P': P, 'N': N, 'method': meth}, R)
+                        if K == 1 and sub[0] % 3 == 1:
+                            eval_point({'kind': 'cx', 'NFFT': nf, 'bins': list(sub), 'amps': np.array(amps, dtype=complex), 'phases': list(ph),
+                                        'P': P, 'N': 2 * P + 1, 'method': 'music', 'strided': True}, R)
     elif desc[0] == 'real':
         nf = desc[1]
         for k in range(2, nf // 2 - 1):
@@ -148,6 +151,11 @@ def eval_point(pt, R):
         R.point(pt, indomain=False)
         R.skip('reference_rank!=K')          # e.g. aliased / coincident exponentials for this N
         return
+    if pt.get('strided'):
+        buf = np.empty(2 * len(x), dtype=x.dtype)      # hand the estimator a non-contiguous view of the same samples
+        buf[0::2] = x
+        buf[1::2] = 7.0 - x[::-1]
+        x = buf[0::2]
     if meth == 'ev':
         # EV weights the noise vectors by 1/lambda_noise: on exactly singular data these are 1/0 or 1/(rounding noise), i.e. undefined.
         # EV is therefore run on the record plus the fixed 1e-6 perturbation (noise singular values ~1e-6, well defined).
